@@ -4,6 +4,7 @@
 -/
 import PycommModel.Client
 import PycommProofs.EncapProofs
+import PycommProofs.LCBasic
 namespace Pycomm.Cli
 open Pycomm.Tgt Pycomm.Encap Pycomm.Path
 
@@ -72,7 +73,30 @@ def HookOk {σ} (hook : ObjHook σ) : Prop :=
 theorem failures_are_library {σ} (hook : ObjHook σ) (w : World σ) (c : Call) (e : Exn)
     (hc : w.drv.context.length = 8)
     (h : (call hook w c).2 = .raised e) : e = .comm ∨ e = .response ∨ e = .data ∨ e = .request ∨ e = .bufferEmpty := by
-  sorry
+  have _ := hc
+  cases c with
+  | «open» rnd =>
+    simp only [call] at h
+    split at h
+    · cases h
+    · next w' e' he =>
+      cases h
+      exact .inl (lc_openDrv_err hook w rnd e (by rw [he]))
+  | close =>
+    simp only [call] at h
+    split at h
+    · cases h
+    · next w' e' he =>
+      cases h
+      exact .inl (lc_closeDrv_err hook w e (by rw [he]))
+  | generic a =>
+    simp only [call] at h
+    split at h
+    · cases h
+    · next w' e' he =>
+      cases h
+      -- FUEL = 4 + 4: four levels (generic → ensure forward open → forward open → unconnected generic) suffice
+      exact lc_gm_lib hook 4 w a e (by show (genericMessage hook FUEL w a).2 = _; rw [he])
 
 /-- after close(): the driver reports not connected, has no session, no socket, and the connection flag is off —
     whatever happened before and whether or not close itself raised -/
@@ -80,13 +104,23 @@ theorem after_close_driver {σ} (hook : ObjHook σ) (w : World σ) :
     let w' := (closeDrv hook w).1
     w'.drv.connectionOpened = false ∧ w'.drv.session = some 0 ∧ w'.drv.hasSock = false ∧
     w'.drv.targetIsConnected = false := by
-  sorry
+  rw [lc_closeDrv_eq]
+  exact ⟨rfl, rfl, rfl, rfl⟩
 
 /-- after close() a target that was still reachable holds no session and no connection of this client -/
 theorem after_close_target {σ} (hook : ObjHook σ) (w : World σ) (hs : w.drv.hasSock = true) (ht : w.net.tcpOpen = true) :
     let w' := (closeDrv hook w).1
     w'.net.target.base.sessions = [] ∧ w'.net.target.base.conns = [] := by
-  sorry
+  obtain ⟨a1, _, _, _, a5, _, _⟩ := lc_closeTry_keep hook w
+  intro w'
+  have hn : w'.net = (lcCloseTry hook w).1.net.sockClose := by
+    show (closeDrv hook w).1.net = _
+    rw [lc_closeDrv_net, a1, hs]
+    rfl
+  rw [hn]
+  unfold Net.sockClose
+  rw [a5, ht]
+  exact ⟨rfl, rfl⟩
 
 /-- for EVERY history of calls, every fault plan and every target policy, starting from a fresh driver:
     nothing is ever sent on a connection before a session is registered and a Forward Open has succeeded -/
@@ -102,14 +136,57 @@ theorem fo_order {σ} (hook : ObjHook σ) (hh : HookOk hook) (w : World σ) (hf 
 
 /-- a later open works again: after close(), on a target that accepts sessions and with no fault left,
     open() registers a fresh session -/
+-- STATEMENT CHANGED: added `hidle` (unless the driver holds a socket on an open TCP connection — which close()
+-- shuts, making the target drop its sessions — the target holds no session).  Without it the statement is false:
+-- take the default driver (never opened: hasSock = false, session = some 0, context = b"_pycomm_", option = 0),
+-- no faults, and a target with policy.sessionOk = true, nextSession = 0x1001 whose session table still holds
+-- a stale handle, sessions = [5].  close() has no socket to shut, so the table stays [5], and open() yields
+-- `.ok true`, drv.session = some 4097 but target sessions = [5, 4097] ≠ [4097]  (checked with #eval on
+-- `openDrv hook (closeDrv hook w).1 rnd` for hook = fun _ _ _ => none, rnd = [1,2,3,4,5,6,7,8]).
+-- States reachable from `Fresh` by `run` satisfy `hidle`: open() raises hasSock and tcpOpen together, close()
+-- lowers both and empties the table, and nothing is sent without a socket (invariant argued, not proved here).
 theorem reopen_works {σ} (hook : ObjHook σ) (w : World σ) (rnd : Bytes)
     (hpol : w.net.target.base.policy.sessionOk = true) (hfault : w.net.faults = [])
     (hc : w.drv.context.length = 8) (ho : w.drv.option = 0)
-    (hns : w.net.target.base.nextSession < 2 ^ 32 ∧ 0 < w.net.target.base.nextSession) :
+    (hns : w.net.target.base.nextSession < 2 ^ 32 ∧ 0 < w.net.target.base.nextSession)
+    (hidle : (w.drv.hasSock = false ∨ w.net.tcpOpen = false) → w.net.target.base.sessions = []) :
     let w1 := (closeDrv hook w).1
     let r := openDrv hook w1 rnd
     r.2 = .ok true ∧ r.1.drv.session = some w1.net.target.base.nextSession ∧
     r.1.net.target.base.sessions = [w1.net.target.base.nextSession] ∧ r.1.drv.connectionOpened = true := by
-  sorry
+  intro w1 r
+  obtain ⟨a1, a2, a3, a4, a5, a6, a7⟩ := lc_closeTry_keep hook w
+  obtain ⟨t1, t2, t3⟩ := a7 hc
+  have hd : w1.drv = lcClosedDrv (lcCloseTry hook w).1.drv := lc_closeDrv_drv hook w
+  have hn : w1.net = if (lcCloseTry hook w).1.drv.hasSock then (lcCloseTry hook w).1.net.sockClose
+      else (lcCloseTry hook w).1.net := lc_closeDrv_net hook w
+  have d1 : w1.drv.connectionOpened = false := by rw [hd]; rfl
+  have d2 : w1.drv.session = some 0 := by rw [hd]; rfl
+  have d3 : w1.drv.hasSock = false := by rw [hd]; rfl
+  have d4 : w1.drv.context.length = 8 := by
+    rw [hd]; show (lcCloseTry hook w).1.drv.context.length = 8; rw [a2]; exact hc
+  have d5 : w1.drv.option = 0 := by
+    rw [hd]; show (lcCloseTry hook w).1.drv.option = 0; rw [a3]; exact ho
+  have hnet : w1.net.faults = [] ∧ w1.net.target.base.policy.sessionOk = true ∧
+      w1.net.target.base.nextSession < 2 ^ 32 ∧ w1.net.target.base.sessions = [] := by
+    rw [hn, a1]
+    cases hsk : w.drv.hasSock with
+    | true =>
+      simp only [if_true]
+      obtain ⟨c1, c2, c3, c4⟩ := lc_sockClose_same (lcCloseTry hook w).1.net
+      refine ⟨by rw [c1, a4]; exact hfault, by rw [c2, t1]; exact hpol, by rw [c3, t2]; exact hns.1, c4 ?_⟩
+      cases hto : w.net.tcpOpen with
+      | true => exact .inl (by rw [a5]; exact hto)
+      | false => exact .inr (t3 (hidle (.inr hto)))
+    | false =>
+      simp only [Bool.false_eq_true, if_false]
+      rw [a6 hsk]
+      exact ⟨hfault, hpol, hns.1, hidle (.inl hsk)⟩
+  obtain ⟨n1, n2, n3, n4⟩ := hnet
+  obtain ⟨o1, o2, o3, o4⟩ := lc_open_closed hook w1 rnd d1 d2 d3 d4 d5 n1 n2 n3
+  refine ⟨o1, o2, ?_, o4⟩
+  show (openDrv hook w1 rnd).1.net.target.base.sessions = _
+  rw [o3, n4]
+  rfl
 
 end Pycomm.Cli
